@@ -215,10 +215,14 @@ def feasible(v):
     return True
 
 
-def rows_lock():
+def rows_lock(exposed_idle=False):
     for QE, op, t, back, front, next0 in itertools.product([True, False], ['None', 'Read', 'Write'], ['Read', 'Write'], ['Read', 'Write'], ['Read', 'Write'], [True, False]):
         v = dict(QE=QE, op=op, t=t, back=back, front=front, next0=next0)
         if feasible(v): yield v
+        elif exposed_idle and not QE and op == 'None' and not next0:
+            # I5 is not an invariant of this code (RES.14): unlock() leaves its critical section with the resource marked idle and
+            # requests still queued, so lock() can run in that state
+            yield dict(v, exposed=True)
 
 
 def show(v, keys):
@@ -284,6 +288,38 @@ class ResourceAnalysis:
             self.add('RES.1', False, f'{fn.name}: lock/unlock unbalanced', site, detail)
         self.n_access = sum(len(v) for v in per.values())
 
+    # ---- RES.14: is I5 (queue not empty => an operation is active) re-established before unlock() releases the mutex? ------------------
+    def exposure(self):
+        """site at which unlock() releases the monitor mutex with the resource marked idle although requests are queued (the hand-over
+        to the queue head happens in a later critical section), or None"""
+        if hasattr(self, '_exposed'): return self._exposed
+        self._exposed = None
+        f = self.fn.get('unlock')
+        if f is None: return None
+        for front, t in itertools.product(['Read', 'Write'], ['Read', 'Write']):
+            v = dict(cnt1=True, QE=False, front=front, back=front, op=t, t=t, batch1=True)
+            dom = ResDomain(v); ex = Exec(self.facts, dom)
+            try: paths = [P_ for P_ in ex.run(f) if P_.end not in ('noreturn', 'throw')]
+            except Inconclusive: return None
+            for P in paths:
+                ev = P.events
+                cw = [i for i, e in enumerate(ev) if e[0] == 'write' and e[2][0][0] == 'f' and e[2][0][1][-1] == 'm_activeCount']
+                sel = [i for i, e in enumerate(ev) if e[0] == 'enter' and e[2] == f'{CLS}::select']
+                if not cw or not sel or sel[0] < cw[0]: continue
+                op = E(t)
+                for i in range(cw[0], sel[0]):
+                    e = ev[i]
+                    if e[0] == 'write' and e[2][0][0] == 'f' and e[2][0][1][-1] == 'm_activeOp': op = e[2][1]
+                    released = e[0] == 'mutex.unlock' or (e[0] == 'autodtor' and str(e[2][2]).replace('const ', '').startswith(GUARDS)) or (e[0] == 'sync' and e[2] == 'unlock')
+                    if released and op == E('None'):
+                        prev = next((x[1] for x in reversed(ev[:i]) if x[1] is not None), None)
+                        self._exposed = prev.shortloc() if prev is not None else f.shortloc()
+                        self.add('RES.14', None if False else True, 'unlock(): the state between its critical sections is taken into the lock() table', self._exposed,
+                                 '')
+                        return self._exposed
+        self.add('RES.14', True, 'unlock() re-establishes "queue not empty => an operation is active" before it releases the mutex', f.shortloc(), '')
+        return None
+
     # ---- lock() --------------------------------------------------------------------------------------------------------
     def lock_rows(self):
         f = self.fn.get('lock')
@@ -292,7 +328,7 @@ class ResourceAnalysis:
         this = ('this',)
         seen = {}
         self.loop_form = False
-        for v0 in rows_lock():
+        for v0 in rows_lock(self.exposure() is not None):
             for ord_after in ('<', '=', '>'):
                 v = dict(v0, ord_after=ord_after)
                 dom = ResDomain(v); ex = Exec(self.facts, dom)
@@ -302,6 +338,7 @@ class ResourceAnalysis:
                 # rows that differ only in atoms the code never looked at take the same path, but the specification may still
                 # distinguish them (a guard that forgot to look at the queue): keep QE / op / t in every row
                 keep = set(used) | {'QE', 'op', 't'}
+                if not v['QE'] and ({'front', 'back'} & set(used)): keep |= {'front', 'back'}      # which entry is touched is judged against both ends
                 sig = tuple((k, v[k]) for k in sorted(keep) if k in v)
                 if sig in seen: continue
                 seen[sig] = True
@@ -317,6 +354,31 @@ class ResourceAnalysis:
             if after is not None and i <= after: continue
             if e[0] == 'write' and e[2][0][0] == 'f' and e[2][0][1][-1] == fld_name: out.append(e)
         return out
+
+    def _one_section(self, P, row, site, waited):
+        """RES.15: what lock() does to the monitor state (count the holder / take a ticket and queue) happens in the critical section
+        in which it looked at the state and decided so"""
+        ev = P.events
+        def is_rel(e): return e[0] == 'mutex.unlock' or (e[0] == 'autodtor' and str(e[2][2]).replace('const ', '').startswith(GUARDS)) or (e[0] == 'sync' and e[2] == 'unlock')
+        def on_state(e):
+            return e[0] == 'branch' and e[1] is not None and any(x.k == 'member' and x.field and x.name in STATE for x in e[1].walk())
+        act = next((i for i, e in enumerate(ev) if (e[0] == 'write' and is_state_loc(e[2][0])) or e[0] == 'q'), None)
+        if act is None: return
+        rels = [i for i, e in enumerate(ev[:act]) if is_rel(e)]
+        inst = f'row {row}: lock() decides and acts in one critical section'
+        R15 = 'RES.15b' if waited else 'RES.15a'
+        if not rels:
+            self.add(R15, True, inst, site); return
+        looked_before = any(on_state(e) for e in ev[:rels[-1]])
+        looked_after = any(on_state(e) for e in ev[rels[-1]:act])
+        rs = next((x[1] for x in reversed(ev[:rels[-1]]) if x[1] is not None), None)
+        rsite = rs.shortloc() if rs is not None else site
+        if looked_before and not looked_after:
+            self.add(R15, False, inst, rsite,
+                     'the state is examined in one critical section and the request is counted / queued in a later one without looking again: in between the last holder may leave '
+                     '(the resource goes idle, nobody is left to call select()) or another request may be admitted — the request then waits in a writer-free state, or two requests are admitted on the same observation')
+        elif looked_after: self.add(R15, None, inst, rsite, 'lock() releases the mutex and examines the state again afterwards: whether the second look is sufficient is not followed')
+        else: self.add(R15, True, inst, site)
 
     def _lock_path(self, P, v, row, dom, this, site, used):
         if getattr(dom, 'witness_only', False):
@@ -335,7 +397,16 @@ class ResourceAnalysis:
             return
         waits = [i for i, e in enumerate(P.events) if e[0] == 'wait']
         waited = bool(waits)
+        self._one_section(P, row, site, waited)
         admit_ok = v['op'] == 'None' or (v['op'] == 'Read' and v['t'] == 'Read')
+        if v.get('exposed'):
+            row += f' [state left behind by unlock() at {self._exposed}]'
+            if not waited:
+                self.add('RES.2a', False, f'row {row}: admitted without waiting', site,
+                         f'unlock() marks the resource idle and releases the mutex at {self._exposed} before select() has admitted the queue head; a request arriving in between is admitted on the fast path, '
+                         f'then select() admits the queue head as well and overwrites the holder count: two holders, one of them possibly a writer')
+                self.add('RES.2b', False, f'row {row}: admitted without waiting', site, f'fast path admits past a non-empty queue (barging): {row}')
+                return
         if not waited:
             self.add('RES.2a', admit_ok, f'row {row}: admitted without waiting', site,
                      '' if admit_ok else f'fast path admits a {v["t"]} request while the active operation is {v["op"]}: {row}')
@@ -755,6 +826,9 @@ class ResourceAnalysis:
 
 RULE_TEXT = {
     'RES.1': 'every access to m_queue, m_activeOp, m_activeCount, m_idCounter, m_upperUnlockBound holds m_mutex (atomics are not exempt: the monitor state must change in one critical section); lock/unlock balanced',
+    'RES.14': 'the state unlock() leaves behind when it releases the mutex: if it marks the resource idle while requests are queued (hand-over in a later critical section), lock() is evaluated in that state too and must not admit there',
+    'RES.15a': 'lock(), fast path: the state is examined and the holder is counted in one critical section (two requests are never admitted on the same observation)',
+    'RES.15b': 'lock(), slow path: the state is examined and the ticket taken / the request queued in one critical section (a request never goes to sleep on a stale observation)',
     'RES.2a': 'fast path (no wait) => active op is None, or Read and the request is a read  [12+ rows of (queue empty, active op, request)]',
     'RES.2b': 'fast path (no wait) => the queue is empty (no barging past a waiting request)',
     'RES.2c': 'queue empty and active op in {None, Read} and request is a read => fast path (a reader never waits without a writer)',
